@@ -140,6 +140,42 @@ TABLE += [
       rules='rule: IMS_read_buf\\(&stream, this->key_, RSNEAPOL_wpa_length\\(this\\)\\) ==> IMS_read_vec(&stream, RSNEAPOL_wpa_length(this))'),
 ]
 
+SI = '__CPROVER_same_object(stream.buffer_, buffer) && __CPROVER_POINTER_OFFSET(stream.buffer_) >= 0 && __CPROVER_POINTER_OFFSET(stream.buffer_) <= total_sz && stream.size_ <= total_sz && __CPROVER_POINTER_OFFSET(stream.buffer_) + stream.size_ <= total_sz'
+TABLE += [
+ dict(cls='LLC', src='src/llc.cpp', hdr='include/tins/llc.h', structs=['llchdr', 'info_control_field', 'super_control_field', 'un_control_field'],
+      members='llchdr header_; uint8_t control_field_length_; union { info_control_field info; super_control_field super; un_control_field unnumbered; } control_field; int type_; uint8_t information_field_length_;',
+      memberlist='members: header_ control_field_length_ control_field type_ information_field_length_ information_fields_', news=['STP', 'RawPDU'],
+      predecl='typedef int Format; enum { INFORMATION = 0, SUPERVISORY = 1, UNNUMBERED = 3 };   /* LLC::Format (llc.h) */',
+      xfuncs='\n'.join(['//@ func include/tins/llc.h LLC::%s match "%s() "\nsig: static uint8_t LLC_%s(const LLC* this)\nclass: LLC include/tins/llc.h\nmembers: header_ control_field_length_ control_field type_ information_field_length_\n//@ endfunc' % (g, g, g) for g in ('dsap', 'ssap')] +
+                       ['//@ func src/llc.cpp LLC::type match "LLC::Format type"\nsig: static void LLC_type_set(LLC* this, Format type)\nclass: LLC include/tins/llc.h\nmembers: header_ control_field_length_ control_field type_ information_field_length_\nrule?: \\bLLC(?:::|_)(INFORMATION|SUPERVISORY|UNNUMBERED)\\b ==> \\1\n//@ endfunc']),
+      rules='rule?: \\bLLC(?:::|_)(INFORMATION|SUPERVISORY|UNNUMBERED)\\b ==> \\1\nrule: LLC_type\\(this, ==> LLC_type_set(this,',
+      mutant='mutant: if \\(!stream\\) \\{\\s*throw malformed_packet\\(\\);\\s*\\} ==> '),
+ dict(cls='ICMPv6', src='src/icmpv6.cpp', hdr='include/tins/icmpv6.h', structs=['icmp6_header', 'multicast_listener_query_message_fields'],
+      members='icmp6_header header_; uint8_t target_address_[16], dest_address_[16], multicast_address_[16]; uint32_t options_size_, reach_time_, retrans_timer_; multicast_listener_query_message_fields mlqm_; _Bool use_mldv2_;',
+      memberlist='members: header_ target_address_ dest_address_ multicast_address_ options_size_ reach_time_ retrans_timer_ mlqm_ use_mldv2_ multicast_records_ sources_ extensions_', news=['RawPDU'],
+      inits='inits: lower',
+      xreplace='IMS_read_v6 tins_mar_ctor Internals_try_parse_icmp_extensions ICMPv6_parse_options',
+      predecl='//@ include lib/icmp_ext.h\n//@ enum include/tins/icmpv6.h Types\ntypedef struct { uint8_t b[16]; } V6;\nV6 IMS_read_v6(IMS* this) IMS_READ_N_CONTRACT(16);   /* read<IPv6Address>() */\n'
+              '/* multicast_address_record(ptr, size): its own constructor (reads inside [ptr, ptr+size) or throws); size() of the record built */\nsize_t tins_mar_ctor(const uint8_t* ptr, size_t n) __CPROVER_requires(__CPROVER_r_ok(ptr, n)) __CPROVER_assigns() __CPROVER_ensures(1);\n'
+              'struct ICMPv6_s; void ICMPv6_parse_options(struct ICMPv6_s* this, IMS* stream) __CPROVER_requires(IMS_PRE(stream)) __CPROVER_assigns(*stream) __CPROVER_ensures(__CPROVER_same_object(stream->buffer_, __CPROVER_old(stream->buffer_)) && stream->size_ <= __CPROVER_old(stream->size_) && __CPROVER_POINTER_OFFSET(stream->buffer_) - __CPROVER_POINTER_OFFSET(__CPROVER_old(stream->buffer_)) == __CPROVER_old(stream->size_) - stream->size_) __CPROVER_ensures(IMS_VALID(stream));   /* icmpv6.parse_options */',
+      xfuncs='\n'.join('//@ func include/tins/icmpv6.h ICMPv6::%s match "%s() const"\nsig: static %s ICMPv6_%s(const ICMPv6* this)\nclass: ICMPv6 include/tins/icmpv6.h\nmembers: header_\n//@ endfunc' % (g, g, r, g) for g, r in (('type', 'Types'), ('has_target_addr', '_Bool'), ('has_dest_addr', '_Bool'), ('length', 'uint8_t'))) +
+             '\n//@ func src/icmpv6.cpp ICMPv6::has_options\nsig: static _Bool ICMPv6_has_options(const ICMPv6* this)\nclass: ICMPv6 include/tins/icmpv6.h\nmembers: header_\n//@ endfunc'
+             '\n//@ func src/icmpv6.cpp ICMPv6::are_extensions_allowed\nsig: static _Bool ICMPv6_are_extensions_allowed(const ICMPv6* this)\nclass: ICMPv6 include/tins/icmpv6.h\nmembers: header_\n//@ endfunc'
+             '\n//@ func src/icmpv6.cpp ICMPv6::try_parse_extensions\nsig: static void ICMPv6_try_parse_extensions(ICMPv6* this, IMS* stream)\nclass: ICMPv6 include/tins/icmpv6.h\nmembers: header_ extensions_\nrule: Internals_try_parse_icmp_extensions\\(stream, (.*?),\\s*this->extensions_\\); ==> Internals_try_parse_icmp_extensions(stream, \\1);\n//@ endfunc',
+      rules='rule: this->mlqm_ = 0; ==> memset(&this->mlqm_, 0, sizeof(this->mlqm_)); /* mlqm_() value-initialisation */\n'
+            'rule: this->target_address_ = IMS_read_ipaddress_type\\(&stream\\); ==> { V6 a_ = IMS_read_v6(&stream); memcpy(this->target_address_, a_.b, 16); }\n'
+            'rule: this->dest_address_ = IMS_read_ipaddress_type\\(&stream\\); ==> { V6 a_ = IMS_read_v6(&stream); memcpy(this->dest_address_, a_.b, 16); }\n'
+            'rule: this->multicast_records_\\.push_back\\(\\s*multicast_address_record\\(IMS_pointer\\(&stream\\), IMS_size\\(&stream\\)\\)\\s*\\);\\s*IMS_skip\\(&stream, this->multicast_records_\\.back\\(\\)\\.size\\(\\)\\); ==> { size_t rec_size_ = tins_mar_ctor(IMS_pointer(&stream), IMS_size(&stream)); IMS_skip(&stream, rec_size_); }\n'
+            'rule: IMS_read_obj\\(&stream, &\\(this->multicast_address_\\), sizeof\\(this->multicast_address_\\)\\) ==> IMS_read_obj(&stream, this->multicast_address_, 16)\n'
+            'rule: this->use_mldv2_ = stream; ==> this->use_mldv2_ = IMS_bool(&stream);\n'
+            'rule: while \\(sources_count--\\) \\{ ==> while (sources_count != 0) { sources_count--; /* while (sources_count--) */\n'
+            'rule: ipaddress_type address;\\s*IMS_read_obj\\(&stream, &\\(?address\\)?, sizeof\\(address\\)\\);\\s*this->sources_\\.push_back\\(address\\); ==> { V6 address = IMS_read_v6(&stream); (void)address; }\n'
+            'rule: ICMPv6_parse_options\\(this, stream\\) ==> ICMPv6_parse_options((struct ICMPv6_s*)this, &stream)\n'
+            'rule: ICMPv6_try_parse_extensions\\(this, stream\\) ==> ICMPv6_try_parse_extensions(this, &stream)',
+      loops='loop 0:\n__CPROVER_assigns(i, stream)\n__CPROVER_loop_invariant(i <= record_count && ' + SI + ')\n__CPROVER_decreases(record_count - i)\nend\nloop 1:\n__CPROVER_assigns(sources_count, stream)\n__CPROVER_loop_invariant(sources_count >= 0 && sources_count <= 65535 && ' + SI + ')\n__CPROVER_decreases(sources_count)\nend',
+      mutant='mutant: if \\(stream\\) \\{\\s*inner_pdu ==> { inner_pdu'),
+]
+
 
 def generate(outdir, tier):
     paths = []
